@@ -340,6 +340,9 @@ class Units:
                     if r.get("k") == "binary" and r["op"] == "+" and T.local_of(r["l"]) == sp["id"] and T.lit_value(r["r"]) == 1 and seeds[i] == ZERO \
                             and src.get("k") == "mcall" and src["name"] in ("char_indices", "chars"):
                         u = CH
+                    elif r.get("k") == "path" and T.local_of(r) == sp["id"] and seeds[i] == ZERO and src.get("k") == "mcall" \
+                            and src["name"] in ("char_indices", "chars") and self._stepped_once_by_one(clo, sp["id"]):
+                        u = CH        # the same counter updated in place: `acc_i += 1;` once, unconditionally, then handed on
                     else:
                         u = join(u, self.env.get(sp["id"], BOT))
                 self.set(sp["id"], u)
@@ -347,6 +350,15 @@ class Units:
             else:
                 units.append(TOP)
         return units
+
+    def _stepped_once_by_one(self, clo, lid):
+        b = T.peel(clo["body"])
+        while b.get("k") == "blockexpr":
+            b = b["block"]
+        top = [T.peel(st["e"]) for st in b.get("stmts", []) if st.get("k") == "expr"]
+        mods = [n for n in T.nodes(clo["body"]) if n.get("k") in ("assign", "assign_op") and T.local_of(n["l"]) == lid]
+        return len(mods) == 1 and mods[0]["k"] == "assign_op" and mods[0]["op"].startswith("+") and T.lit_value(mods[0]["r"]) == 1 \
+            and any(t is mods[0] for t in top)
 
     def _closure_ret(self, clo):
         b = T.peel(clo["body"])
